@@ -1260,7 +1260,7 @@ def gen_edited(tier):
                     for op2 in M.edit_ops(len(l1), n0 + (1 if M.edit_adds(op1) else 0)):
                         t += 1
                         H1, H2 = M.EDIT_HOWS[op1[0]], M.EDIT_HOWS[op2[0]]
-                        if th:
+                        if th and n0 < 3:
                             for h1 in H1:
                                 for h2 in H2:
                                     k += 1
@@ -1356,7 +1356,8 @@ def spaces(tier, seed):
                     "twice in a score.  One edit: n0 in {1,2,3} x 2-3 initial shapes x every edit (3; 8; 13) x every way (2-3) " +
                     ("x 3 modes x (score read before the edit or not)" if th else
                      "(mode and read-before-edit cycled)") + "; two edits: every sequence, n0 " +
-                    ("in {1,2,3} (19; 69; 178 sequences) x shapes x every pair of ways, mode and read-before-edit cycled" if th else
+                    ("in {1,2} (19; 69 sequences) x 2 shapes x every pair of ways, mode and read-before-edit cycled, and n0 = 3 (178 "
+                     "sequences) x 3 shapes, ways, mode and read-before-edit cycled" if th else
                      "= 2 (69 sequences) x 2 shapes, ways, mode and read-before-edit cycled") +
                     ".  Results of 1 part: identity clauses; of 2-5 parts: all clauses, against the parts the score holds "
                     "after the edits (Score.parts, iteration and indexing compared with the list model)"))
